@@ -226,25 +226,24 @@ def rule_check_preprocessor(repo, rep):
   rep.rule(Rc, 'ArrayIndexer.__call__(indices) is self.X[indices]: rows '
            'selected by the indicator values, no reordering')
   g = repo.get_func('_util.ArrayIndexer.__call__')
-  body = [s for s in g.node.body if not (isinstance(s, ast.Expr) and
-                                         isinstance(s.value, ast.Constant))]
   p = g.params()
-  if len(body) == 1 and isinstance(body[0], ast.Return) and len(p) == 2:
-    e = body[0].value
-    want1 = 'self.X[%s]' % p[1]
-    want2 = ('np.take(self.X, %s, axis=0)' % p[1])
-    got = ast.unparse(e)
-    if got in (want1, want2, 'self.X[%s, :]' % p[1], 'self.X[%s, ...]' % p[1]):
-      rep.derived(Rc, '_util.ArrayIndexer.__call__', site(g))
-    elif isinstance(e, ast.Subscript) or isinstance(e, ast.Call):
-      rep.refuted(Rc, '_util.ArrayIndexer.__call__', site(g),
-                  'returns %s, not self.X[%s]' % (got, p[1]))
-    else:
-      rep.unknown(Rc, '_util.ArrayIndexer.__call__', site(g),
-                  'unrecognised body %s' % got)
-  else:
+  rets = [r for r in ast.walk(g.node) if isinstance(r, ast.Return)]
+  if len(p) != 2 or not rets:
     rep.unknown(Rc, '_util.ArrayIndexer.__call__', site(g),
-                'unrecognised body')
+                'unrecognised signature / no return')
+  for r in rets:
+    got = ast.unparse(r.value) if r.value is not None else 'None'
+    ok_forms = ('self.X[%s]' % p[1], 'np.take(self.X, %s, axis=0)' % p[1],
+                'self.X[%s, :]' % p[1], 'self.X[%s, ...]' % p[1])
+    if got in ok_forms:
+      rep.derived(Rc, '_util.ArrayIndexer.__call__', site(g, r))
+    elif 'self.X' in got:
+      rep.refuted(Rc, '_util.ArrayIndexer.__call__:%s' % got, site(g, r),
+                  'a path returns %s, not self.X[%s]: the rows are not '
+                  'selected by the indicator values themselves' % (got, p[1]))
+    else:
+      rep.unknown(Rc, '_util.ArrayIndexer.__call__', site(g, r),
+                  'unrecognised return %s' % got)
 
 
 def rule_only_for_indicators(repo, rep):
